@@ -30,7 +30,8 @@ def gen_params(rng, tier):
     handles = ["h0", "h1"]
     hist.append(["new", "h0"])
     hist.append(["new", "h1"])
-    np_ok = not any(s["k"] == "Sum" for s in gen.walk(spec))  # keep clear of known finding C03-sum-nan
+    # vectorised fills need a quantity-bearing tree; keep clear of known finding C03-sum-nan
+    np_ok = any("q" in s for s in gen.walk(spec)) and not any(s["k"] == "Sum" for s in gen.walk(spec))
     for i in range(n):
         k = rng.choice(["fills", "fills", "fills", "fillsnp", "add", "iadd", "mul", "copy", "zero", "roundtrip"])
         a, b = rng.choice(handles), rng.choice(handles)
